@@ -12,6 +12,9 @@ if TYPE_CHECKING:
 
 @lru_cache(1024)
 def _struct(endian: str, packchar: str) -> Struct:
+    if endian == "@":
+        # Native mode would also use native sizes and pad between members; only the byte order is meant to be native
+        endian = "="
     return Struct(f"{endian}{packchar}")
 
 
